@@ -635,6 +635,37 @@ func runC07(c *Ctx) {
 					if !isMinus1 || len(muts) > 0 {
 						ok, why = false, "the path that removes nothing does not return -1 with the contents untouched"
 					}
+					// the row is taken only when the value is absent: the path knows Index(value) == -1 (as == -1, or as < 0,
+					// Index never returning less than -1), or that the validating comparison failed
+					absent := false
+					for _, cd := range p.Conds {
+						rl := cd.Rel()
+						pl, kind, okk := rl.IntNorm()
+						if okk {
+							for _, x := range subtermsWhere(cd.T, func(t *Term) bool {
+								return t.Op == "call" && t.Sym == "slices.(*Sorted).Index" && len(t.Args) == 2 && t.Args[0].Key() == recv.Key() && isParam(t.Args[1], 1)
+							}) {
+								if kind == "=" && pl.Equal(canonSign(ToPoly(x).Add(polyConst(1), 1))) {
+									absent = true
+								}
+								if kind == ">" && pl.Equal(polyConst(0).Add(ToPoly(x), -1)) {
+									absent = true
+								}
+							}
+						}
+						if rl.B != nil && rl.Op == "!=" {
+							a, b := rl.A, rl.B
+							for k := 0; k < 2; k++ {
+								if a.Op == "load" && a.Args[0].Op == "iaddr" && isFieldLoad(a.Args[0].Args[0], sliceF, recv) && isParam(b, 1) {
+									absent = true
+								}
+								a, b = b, a
+							}
+						}
+					}
+					if ok && !absent {
+						ok, why = false, "a path returns -1 and removes nothing without knowing that Index(value) is -1: a value that is present (at a position the guard also covers) is not removed"
+					}
 					continue
 				}
 				sawRm = true
